@@ -177,7 +177,8 @@ Definition bump (s : state) := {| st_cells := st_cells s; st_heap := st_heap s; 
   st_globals := st_globals s; st_log := st_log s; st_steps := N.succ (st_steps s); st_notes := st_notes s |}.
 
 (* note codes: 12 a Get past the end of a table that has an entry under the key nil (the row is
-   {key: nil, value: nil}; the implementation answers with the value stored under nil) *)
+   {key: nil, value: nil}; the implementation answers with the value stored under nil);
+   14 a global that was never assigned was read (VarNotFound) *)
 Definition add_note (n : N) (s : state) := {| st_cells := st_cells s; st_heap := st_heap s; st_clos := st_clos s;
   st_globals := st_globals s; st_log := st_log s; st_steps := st_steps s; st_notes := n :: st_notes s |}.
 
@@ -573,7 +574,7 @@ Definition read_var (e : env) (s : state) (name : str) (k : value -> res) : res 
               end
   | None => match assoc v (st_globals s) with
             | Some x => get_props s e x props k
-            | None => err EVarNotFound e s
+            | None => err EVarNotFound e (add_note 14 s)
             end
   end.
 
